@@ -7,9 +7,11 @@ import (
 	"os/exec"
 	"regexp"
 	"runtime"
+	"runtime/debug"
 	"sort"
 	"strings"
 	"sync"
+	"sync/atomic"
 	"time"
 
 	"github.com/xujiajun/nutsdb"
@@ -49,6 +51,9 @@ func RaceMain(prefix string, rounds int, seed int64) {
 			}
 			var dirs []string
 			var dmu sync.Mutex
+			var pmu sync.Mutex
+			var poisoned int32
+			panicked := ""
 			for c := 0; c < copies; c++ {
 				for ti := range h.threads {
 					t := h.threads[ti]
@@ -60,7 +65,19 @@ func RaceMain(prefix string, rounds int, seed int64) {
 					yields := int((seed + int64(round) + int64(c*7+ti)) % 4)
 					go func() {
 						defer wg.Done()
-						defer func() { recover() }()
+						defer func() {
+							// a panic inside a transaction leaves the database lock held: the other threads
+							// of the round can never finish.  It is recorded (not swallowed) and the round
+							// is abandoned.
+							if p := recover(); p != nil {
+								pmu.Lock()
+								if panicked == "" {
+									panicked = fmt.Sprintf("%v\n%s", p, debug.Stack())
+								}
+								pmu.Unlock()
+								atomic.StoreInt32(&poisoned, 1)
+							}
+						}()
 						<-start
 						for y := 0; y < yields; y++ {
 							runtime.Gosched()
@@ -95,14 +112,42 @@ func RaceMain(prefix string, rounds int, seed int64) {
 			// goroutines cannot be cancelled
 			done := make(chan struct{})
 			go func() { wg.Wait(); close(done) }()
-			select {
-			case <-done:
-			case <-time.After(120 * time.Second):
-				buf := make([]byte, 1<<20)
-				buf = buf[:runtime.Stack(buf, true)]
-				fmt.Fprintf(os.Stderr, "\nVERIF-BLOCKED harness=%s round=%d\n%s\nVERIF-BLOCKED-END\n", n, round, buf)
-				os.RemoveAll(core.ScratchRoot)
-				os.Exit(3)
+			deadline := time.After(120 * time.Second)
+			tick := time.NewTicker(20 * time.Millisecond)
+			abandoned := false
+		wait:
+			for {
+				select {
+				case <-done:
+					break wait
+				case <-tick.C:
+					if atomic.LoadInt32(&poisoned) != 0 {
+						// give the others a moment, then leave the round (its threads may be blocked on
+						// the lock the panicking transaction held)
+						select {
+						case <-done:
+						case <-time.After(300 * time.Millisecond):
+							abandoned = true
+						}
+						break wait
+					}
+					continue
+				case <-deadline:
+					buf := make([]byte, 1<<20)
+					buf = buf[:runtime.Stack(buf, true)]
+					fmt.Fprintf(os.Stderr, "\nVERIF-BLOCKED harness=%s round=%d\n%s\nVERIF-BLOCKED-END\n", n, round, buf)
+					os.RemoveAll(core.ScratchRoot)
+					os.Exit(3)
+				}
+			}
+			tick.Stop()
+			pmu.Lock()
+			if panicked != "" {
+				fmt.Fprintf(os.Stderr, "\nVERIF-PANIC harness=%s round=%d\n%s\nVERIF-PANIC-END\n", n, round, panicked)
+			}
+			pmu.Unlock()
+			if abandoned {
+				continue // the instances cannot be closed (the lock is held for good); their directories go with the scratch root
 			}
 			for _, in := range insts {
 				func() {
@@ -231,6 +276,32 @@ func init() {
 		races := parseRaces(buf.String())
 		for a, d := range fatal {
 			races[a] = d
+		}
+		// panics inside transactions of the free-running pass
+		for _, blk := range strings.Split(buf.String(), "VERIF-PANIC harness=")[1:] {
+			if e := strings.Index(blk, "VERIF-PANIC-END"); e >= 0 {
+				blk = blk[:e]
+			}
+			site, api := "", ""
+			for _, l := range strings.Split(blk, "\n") {
+				if strings.HasPrefix(l, "github.com/xujiajun/nutsdb") && !strings.Contains(l, "verifshim") {
+					f := strings.TrimPrefix(l, "github.com/xujiajun/nutsdb")
+					f = strings.TrimPrefix(f, ".")
+					if i := strings.LastIndex(f, "("); i > 0 {
+						f = f[:i]
+					}
+					if site == "" {
+						site = f
+					}
+					if f != "(*DB).managed" {
+						api = f
+					}
+				}
+			}
+			a := "race:panic:" + site + "@" + api
+			if _, ok := races[a]; !ok {
+				races[a] = clip(blk, 1500)
+			}
 		}
 		info := map[string]interface{}{"rounds": rounds, "goroutines": 16, "distinct_race_reports": len(races), "sampling": true, "runtime_fatal_errors": len(fatal)}
 		if m := regexp.MustCompile(`VERIF-BLOCKED harness=(\S+) round=(\d+)`).FindStringSubmatch(buf.String()); m != nil {
